@@ -61,15 +61,24 @@ theorem sim_call (fns : List FnDecl) (s : St) (w : Watch) (c : Spell) (hop : opO
           simp only [create, hb]
           exact ⟨w, rfl, h⟩
         | some t0 =>
-          obtain ⟨task0, ht0, _, _, _⟩ := h.wf _ t0 hm
+          obtain ⟨task0, ht0, hk0, _, ho0⟩ := h.wf _ t0 hm
           simp only [ht0]
           cases hrun : task0.running with
           | true =>
             simp only [↓reduceIte, create, hb]
             exact ⟨w, rfl, h⟩
           | false =>
-            have hlt : t0 < w.info.length := by rw [h.len]; exact (List.getElem?_eq_some_iff.mp ht0).1
-            simp only [Bool.false_eq_true, ↓reduceIte, hlt]
+            -- the task stored under the key computed from the ill-formed arguments: a live task of this function on
+            -- this thread, and the in-flight task of its own call
+            obtain ⟨x0, hx0, hr0⟩ := rel_info fns s w h t0 task0 ht0
+            have hfn : x0.rk.fn = c.fn := by rw [← hr0.key.1, hk0]
+            have hth : x0.rk.th = c.th := by rw [← hr0.key.2.1, hk0]
+            have hdn : x0.done = false := by rw [hr0.done, ho0]; rfl
+            have hag0 := h.agree _ _ hr0.key
+            rw [hk0, hm] at hag0
+            have hcn := contains_of_mem _ _ hag0
+            simp only [Bool.false_eq_true, ↓reduceIte, hx0, hfn, hth, hdn, hcn, beq_self_eq_true, Bool.not_false,
+              Bool.and_self]
             exact ⟨w, rfl, h⟩
     | ok b =>
       obtain ⟨tup, hk⟩ := key_ok_of_bind d.sig _ _ b hb
@@ -86,7 +95,7 @@ theorem sim_call (fns : List FnDecl) (s : St) (w : Watch) (c : Spell) (hop : opO
         refine ⟨_, rfl, ?_⟩
         have hrel' : TRel fns { key := { tup := tup, th := c.th, fn := c.fn }, b := b, reg := true, started := false, running := false, out := none }
             { rk := { fn := c.fn, th := c.th, b := b }, started := false, running := false, done := false } :=
-          ⟨fun z => by simp at z, rfl, rfl, rfl, hkr⟩
+          ⟨fun z => by simp at z, rfl, rfl, rfl, hkr, rfl⟩
         obtain ⟨hlen, hpt⟩ := pt_append fns s w h _ _ hrel'
         constructor
         · exact hlen
@@ -133,7 +142,7 @@ theorem sim_call (fns : List FnDecl) (s : St) (w : Watch) (c : Spell) (hop : opO
           refine ⟨_, rfl, ?_⟩
           have hrel' : TRel fns { key := { tup := tup, th := c.th, fn := c.fn }, b := b, reg := false, started := false, running := false, out := none }
               { rk := { fn := c.fn, th := c.th, b := b }, started := false, running := false, done := false } :=
-            ⟨fun z => by simp at z, rfl, rfl, rfl, hkr⟩
+            ⟨fun z => by simp at z, rfl, rfl, rfl, hkr, rfl⟩
           obtain ⟨hlen, hpt⟩ := pt_append fns s w h _ _ hrel'
           constructor
           · exact hlen
@@ -182,9 +191,158 @@ theorem sim_step (fns : List FnDecl) (s : St) (w : Watch) (op : Op) (hop : opOk 
   | complete t o => exact sim_complete fns s w t o h
   | threadEnd th => exact ⟨w, by simp [watchStep, observe, step], by simpa [observe, step] using h⟩
   | outside n => exact ⟨w, by simp [watchStep, observe, step], by simpa [observe, step] using h⟩
+  | await t => exact sim_await fns s w t h
+  | aioCall c => exact ⟨w, by simp [watchStep, observe, step], by simpa [observe, step] using h⟩
+
+/-- where the observer knows the state of the entry, the model's table grows / stays exactly as `sizeExact` says -/
+theorem step_sizeExact (fns : List FnDecl) (s : St) (w : Watch) (op : Op) (hop : opOk fns op = true) (h : Rel fns s w)
+    (hn : TableNodup s) :
+    sizeExact fns w s.table.length (observe fns s op).2 = true := by
+  cases op with
+  | call c =>
+    cases hd : fns[c.fn]? with
+    | none => simp [sizeExact, observe, step, hd]
+    | some d =>
+      simp only [opOk, hd] at hop
+      cases hb : d.sig.bind (effArgs d c) c.kw with
+      | error e =>
+        have hek : entryKnown fns w c = none := by simp [entryKnown, hd, hb]
+        simp only [sizeExact, observe_op, observe_res, hek]
+        split <;> rfl
+      | ok b =>
+        obtain ⟨tup, hk⟩ := key_ok_of_bind d.sig _ _ b hb
+        have hkr : KeyRel fns { tup := tup, th := c.th, fn := c.fn } { fn := c.fn, th := c.th, b := b } :=
+          ⟨rfl, rfl, d, _, _, hd, hop, hb, hk⟩
+        have hag := h.agree _ _ hkr
+        have hek : entryKnown fns w c =
+            if (pget w.poss { fn := c.fn, th := c.th, b := b }).all (· == none) then some true
+            else if !(pget w.poss { fn := c.fn, th := c.th, b := b }).contains none then some false else none := by
+          simp [entryKnown, hd, hb]
+        cases hm : mget s.table { tup := tup, th := c.th, fn := c.fn } with
+        | none =>
+          rw [hm] at hag
+          have hcn := contains_of_mem _ _ hag
+          have hres : (observe fns s (.call c)).2.res = .ret s.tasks.length true ∧
+              (observe fns s (.call c)).2.size = s.table.length + 1 := by
+            simp [observe, step, hd, hk, hm, create, hb, mset, merase_absent _ _ hm]
+          simp only [sizeExact, observe_op, hres.1, hres.2, hek]
+          by_cases hall : (pget w.poss { fn := c.fn, th := c.th, b := b }).all (· == none) = true
+          · simp only [hall, ↓reduceIte, beq_self_eq_true]
+          · have hall' : (pget w.poss { fn := c.fn, th := c.th, b := b }).all (· == none) = false := by simpa using hall
+            simp only [hall', hcn, Bool.false_eq_true, Bool.not_true, ↓reduceIte]
+        | some t0 =>
+          rw [hm] at hag
+          obtain ⟨task0, ht0, _, _, _⟩ := h.wf _ t0 hm
+          have hnall : (pget w.poss { fn := c.fn, th := c.th, b := b }).all (· == none) = false := by
+            apply Bool.eq_false_iff.mpr
+            intro hall
+            have := List.all_eq_true.mp hall _ hag
+            simp at this
+          cases hrun : task0.running with
+          | true =>
+            have hres : (observe fns s (.call c)).2.res = .ret s.tasks.length true ∧
+                (observe fns s (.call c)).2.size = s.table.length := by
+              simp [observe, step, hd, hk, hm, ht0, hrun, create, hb]
+            simp only [sizeExact, observe_op, hres.1, hres.2, hek]
+            by_cases hc : (pget w.poss { fn := c.fn, th := c.th, b := b }).contains none = true
+            · simp only [hnall, hc, Bool.false_eq_true, Bool.not_true, ↓reduceIte]
+            · have hc' : (pget w.poss { fn := c.fn, th := c.th, b := b }).contains none = false := by simpa using hc
+              simp only [hnall, hc', Bool.false_eq_true, Bool.not_false, ↓reduceIte, beq_self_eq_true]
+          | false =>
+            have hres : (observe fns s (.call c)).2.res = .ret t0 false := by
+              simp [observe, step, hd, hk, hm, ht0, hrun]
+            simp only [sizeExact, observe_op, hres]
+  | dirty c =>
+    cases hd : fns[c.fn]? with
+    | none => simp [sizeExact, observe, step, hd]
+    | some d =>
+      simp only [opOk, hd] at hop
+      cases hb : d.sig.bind (effArgs d c) c.kw with
+      | error e =>
+        have hek : entryKnown fns w c = none := by simp [entryKnown, hd, hb]
+        simp only [sizeExact, observe_op, observe_res, hek]
+        split <;> rfl
+      | ok b =>
+        obtain ⟨tup, hk⟩ := key_ok_of_bind d.sig _ _ b hb
+        have hkr : KeyRel fns { tup := tup, th := c.th, fn := c.fn } { fn := c.fn, th := c.th, b := b } :=
+          ⟨rfl, rfl, d, _, _, hd, hop, hb, hk⟩
+        have hag := h.agree _ _ hkr
+        have hek : entryKnown fns w c =
+            if (pget w.poss { fn := c.fn, th := c.th, b := b }).all (· == none) then some true
+            else if !(pget w.poss { fn := c.fn, th := c.th, b := b }).contains none then some false else none := by
+          simp [entryKnown, hd, hb]
+        have hres : (observe fns s (.dirty c)).2.res = .unit := by simp [observe, step, hd, hk]
+        by_cases hall : (pget w.poss { fn := c.fn, th := c.th, b := b }).all (· == none) = true
+        · have := List.all_eq_true.mp hall _ hag
+          have hm : mget s.table { tup := tup, th := c.th, fn := c.fn } = none := by simpa using this
+          have hsz : (observe fns s (.dirty c)).2.size = s.table.length := by
+            simp [observe, step, hd, hk, merase_absent _ _ hm]
+          simp only [sizeExact, observe_op, hres, hsz, hek, hall, ↓reduceIte, beq_self_eq_true]
+        · have hall' : (pget w.poss { fn := c.fn, th := c.th, b := b }).all (· == none) = false := by simpa using hall
+          by_cases hc : (pget w.poss { fn := c.fn, th := c.th, b := b }).contains none = true
+          · simp only [sizeExact, observe_op, hres, hek, hall', hc, Bool.false_eq_true, Bool.not_true, ↓reduceIte]
+          · have hc' : (pget w.poss { fn := c.fn, th := c.th, b := b }).contains none = false := by simpa using hc
+            have hm : ∃ t0, mget s.table { tup := tup, th := c.th, fn := c.fn } = some t0 := by
+              cases hmm : mget s.table { tup := tup, th := c.th, fn := c.fn } with
+              | none =>
+                rw [hmm] at hag
+                have := contains_of_mem _ _ hag
+                rw [hc'] at this; contradiction
+              | some t0 => exact ⟨t0, rfl⟩
+            obtain ⟨t0, hm⟩ := hm
+            have hsz : (observe fns s (.dirty c)).2.size + 1 = s.table.length := by
+              simp only [observe, step, hd, hk]
+              exact merase_length_present _ _ t0 hn hm
+            simp only [sizeExact, observe_op, hres, hek, hall', hc', Bool.false_eq_true, Bool.not_false, ↓reduceIte, hsz,
+              beq_self_eq_true]
+  | start t => simp only [sizeExact, observe_op]
+  | resume t b => simp only [sizeExact, observe_op]
+  | suspend t => simp only [sizeExact, observe_op]
+  | complete t o =>
+    simp only [sizeExact, observe_op]
+    cases ht : s.tasks[t]? with
+    | none =>
+      have hres : (observe fns s (.complete t o)).2.res = .bad := by simp [observe, step, ht]
+      simp only [hres]
+    | some task =>
+      obtain ⟨x, hx, hr⟩ := rel_info fns s w h t task ht
+      by_cases hd : task.out.isSome = true
+      · have hres : (observe fns s (.complete t o)).2.res = .bad := by simp [observe, step, ht, hd]
+        simp only [hres]
+      · have hd' : task.out.isSome = false := by simpa using hd
+        have hres : (observe fns s (.complete t o)).2.res = .unit := by simp [observe, step, ht, hd']
+        have hag := h.agree _ _ hr.key
+        simp only [hres, hx]
+        by_cases hall : (pget w.poss x.rk).all (· == some t) = true
+        · have := List.all_eq_true.mp hall _ hag
+          have hm : mget s.table task.key = some t := by simpa using this
+          obtain ⟨a, ha, _, hra, _⟩ := h.wf _ _ hm
+          rw [ht] at ha; injection ha with ha; subst ha
+          have hsz : (observe fns s (.complete t o)).2.size + 1 = s.table.length := by
+            simp only [observe, step, ht, hd', Bool.false_eq_true, ↓reduceIte, setTask, hra, hm, beq_self_eq_true,
+              Bool.and_self]
+            exact merase_length_present _ _ t hn hm
+          simp only [hall, ↓reduceIte, hsz, beq_self_eq_true]
+        · have hall' : (pget w.poss x.rk).all (· == some t) = false := by simpa using hall
+          by_cases hc : (pget w.poss x.rk).contains (some t) = true
+          · simp only [hall', hc, Bool.false_eq_true, Bool.not_true, ↓reduceIte]
+          · have hc' : (pget w.poss x.rk).contains (some t) = false := by simpa using hc
+            have hm : ¬ mget s.table task.key = some t := by
+              intro hm
+              rw [hm] at hag
+              have := contains_of_mem _ _ hag
+              rw [hc'] at this; contradiction
+            have hm' : (mget s.table task.key == some t) = false := by simpa using hm
+            have hsz : (observe fns s (.complete t o)).2.size = s.table.length := by
+              simp [observe, step, ht, hd', setTask, hm']
+            simp only [hall', hc', Bool.false_eq_true, Bool.not_false, ↓reduceIte, hsz, beq_self_eq_true]
+  | threadEnd th => simp only [sizeExact, observe_op]
+  | outside n => simp only [sizeExact, observe_op]
+  | await t => simp only [sizeExact, observe_op]
+  | aioCall c => simp only [sizeExact, observe_op]
 
 theorem watchRun_ok (fns : List FnDecl) (ops : List Op) (hs : histOk fns ops = true) (s : St) (w : Watch)
-    (h : Rel fns s w) :
+    (h : Rel fns s w) (hn : TableNodup s) :
     ∃ w', watchRun fns w s.table.length (run fns s ops) = .ok w' := by
   induction ops generalizing s w with
   | nil => exact ⟨w, rfl⟩
@@ -192,21 +350,21 @@ theorem watchRun_ok (fns : List FnDecl) (ops : List Op) (hs : histOk fns ops = t
     rw [run_cons]
     simp only [histOk, List.all_cons, Bool.and_eq_true] at hs
     obtain ⟨w', h1, h2⟩ := sim_step fns s w op hs.1 h
-    simp only [watchRun, h1, step_size fns s op, ↓reduceIte]
-    exact ih (by simpa [histOk] using hs.2) _ w' h2
+    simp only [watchRun, h1, sizeOk, step_size fns s op hn, step_sizeExact fns s w op hs.1 h hn, Bool.and_self, ↓reduceIte]
+    exact ih (by simpa [histOk] using hs.2) _ w' h2 (nodup_step fns s op hn)
 
 theorem histOk_of_sigsOk (fns : List FnDecl) (hs : sigsOk fns = true) (ops : List Op) : histOk fns ops = true := by
   simp only [histOk, List.all_eq_true]
   intro op _
   have hd : ∀ (c : Spell), (match fns[c.fn]? with
       | none => true
-      | some d => callOk d.sig (effArgs d c)) = true := by
+      | some d => callOk d.sig (effArgs d c) c.kw) = true := by
     intro c
     cases hf : fns[c.fn]? with
     | none => rfl
     | some d =>
       simp only [sigsOk, List.all_eq_true] at hs
-      exact callOk_of_ok _ _ (hs d (List.mem_of_getElem? hf))
+      exact callOk_of_ok _ _ _ (hs d (List.mem_of_getElem? hf))
   cases op <;> simp only [opOk] <;> first | exact hd _ | rfl
 
 end AsynqModel.Dedup
